@@ -836,3 +836,12 @@ def describe(tier):
             "not exact in binary, so no comparison across scales is made)",
             "degenerate recordings: any exception counts as refusal; only 'refuse or finite non-negative' is judged",
         ])
+
+
+_describe_base = describe
+
+
+def describe(tier):     # noqa: F811 - the base description plus what later rounds added to the space
+    d = _describe_base(tier)
+    d["rule"] = d["rule"] + " " + 'The pool holds a fourth time step, 1/100.4 s (blocks nearrate / nearrate_dflt: lists over members at 0.01 s and 1/100.4 s).'
+    return d
